@@ -270,6 +270,7 @@ if nviol == 0:
             chk.violation(tag, replay_files(prog, {"tags.txt": "nogc\n"}), "%s: nogc build under valgrind disagrees with the expected table: %s (rc=%s)" % (tag, st[:1], r.rc))
         else:
             evals += prog["nunits"]
+        make_replay_exec(tag)
 
 chk.cov["evaluations"] = evals
 chk.cov["programs"] = len(cabi_jobs) + len(str_jobs)
